@@ -50,12 +50,19 @@ TRUSTED = [
     "harness/crash/replay.py (self-check every run: replaying the full operation list reproduces the real final directory "
     "byte for byte; thorough: real SIGKILL states equal replayed prefixes)",
     "the abstraction bytes -> Model/FsCrash.v contents in harness/props/c08.py (records by bit pattern, complete pickles / "
-    "HDF5 / text files by equality with files produced by an uninterrupted run)",
+    "HDF5 / text files by equality with files produced by an uninterrupted run; the record size of a data.bin by its header "
+    "byte as written by an uninterrupted run).  On the large scale x a record is abstracted to the PIECE that delivered it "
+    "(run-length terms): the comparison of operation lists sees how many records of which piece a file holds and whether a "
+    "torn record follows, not which ones; WHICH records a crash state holds is decided by the real recovery (sha1 of "
+    "load_data per patch against the fresh catalog), as on every scale",
     "h5py/HDF5, pickle, PyYAML, numpy.fromfile/loadtxt, scipy KDTree are exercised by the recovery worker, not modelled",
 ]
 ASSUMPTIONS = [
     "granularity is the system call (the property's quantifier): no reordering below the syscall interface (page cache, "
-    "directory entries without fsync)",
+    "directory entries without fsync); data still in a user-space buffer (stdio, io.BufferedWriter) at the crash are lost, "
+    "which is what the traces show: a write appears when the buffer is flushed",
+    "how a piece above the buffer size is cut into write system calls is whatever the trace shows and is a parameter of the "
+    "model (theorems: every cutting, complete or torn records in between)",
     "workloads are sequential (max_workers=1); the order in which rmtree deletes is whatever the trace shows and is a "
     "parameter of the model (theorem: every children-first order)",
     "a later measurement = yaw.crosscorrelate with the recovered catalog as reference (binned request) or as unknown "
@@ -63,7 +70,8 @@ ASSUMPTIONS = [
 ]
 RULE = ("case = (scale, workload, prior state, crash position k, later request); distinct by that tuple; non-trivial when "
         "0 < k < number of operations (a state that exists only if the process dies there); a product workload is "
-        "(class, path shape, str|Path, working directory, prior state)")
+        "(class, path shape, str|Path, working directory, prior state); scale x = (chunk sizes drawn per run) x "
+        "(create 32-byte records around one io block | overwrite in pieces of several blocks | create 24-byte records)")
 
 HEADER = "From Verif Require Import Prelude FsCrash.\nOpen Scope nat_scope.\n"
 
@@ -81,12 +89,12 @@ IO_BLOCK = 4096      # st_blksize here = size of the stdio / io.BufferedWriter b
 RECORD = 32          # bytes per stored record (ra, dec, weight, redshift as float64)
 
 
-def piece_sizes(patch, cs):
+def piece_sizes(patch, cs, record=RECORD):
     """bytes per (chunk, patch) piece when rows with patch ids `patch` are processed cs rows at a time"""
     out = []
     for c0 in range(0, len(patch), cs):
         rows = patch[c0:c0 + cs]
-        out += [RECORD * sum(1 for q in rows if q == pid) for pid in sorted(set(rows))]
+        out += [record * sum(1 for q in rows if q == pid) for pid in sorted(set(rows))]
     return out
 
 
@@ -95,7 +103,9 @@ def big_scale(rng):
     Dataset A (create) is cut into pieces AROUND one io block (~128 records of 32 bytes: at least three pieces fit
     into a buffer and at least three do not, checked on the actual data), dataset B (overwrite) into pieces of
     2 .. 3.5 blocks; the chunk sizes are drawn such that the last chunk is short (8 .. 80 records per patch: smaller
-    than any buffer), so that a writer that buffers at all still holds data when the last piece has been handed over."""
+    than any buffer), so that a writer that buffers at all still holds data when the last piece has been handed over.
+    Dataset Aw (create_w) = A without redshifts: 24-byte records in pieces of 2 .. 3.5 blocks, so that the block-wise
+    system calls end INSIDE a record."""
     base = dict(npatch=2, n=3000, cs=256, n_fixed=36, wB_odd=True, big=True)
     patch = {ds: drv.dataset(ds, base)["patch"].tolist() for ds in ("A", "B")}
 
@@ -108,7 +118,9 @@ def big_scale(rng):
         return cands[0]
     mixed = lambda sz: sum(1 for x in sz if x < IO_BLOCK) >= 3 and sum(1 for x in sz if x > IO_BLOCK) >= 3
     large = lambda sz: sum(1 for x in sz if x > 2 * IO_BLOCK) >= 4 and sz[-1] < IO_BLOCK
-    return dict(base, cs=pick("A", 240, 300, mixed), cs_B=pick("B", 500, 900, large))
+    patch["Aw"] = patch["A"]
+    size24 = lambda f: (lambda sz: f([x // RECORD * 24 for x in sz]))
+    return dict(base, cs=pick("A", 240, 300, mixed), cs_B=pick("B", 500, 900, large), cs_Aw=pick("Aw", 700, 1200, size24(large)))
 
 
 # ------------------------------------------------------------------ recovery worker client
@@ -225,16 +237,22 @@ class Abstraction:
         # number; A: 0.., B: 64..), so that long files are short run-length terms and a partially written piece is
         # described by a count, whatever order the records of a piece have in the file
         self.by_piece = bool(scale.get("big"))
-        self.offset = {"A": 0, "B": 64} if self.by_piece else REC_OFFSET
+        self.offset = {"A": 0, "B": 64, "Aw": 128} if self.by_piece else REC_OFFSET
+        self.datasets = ("A", "B", "Aw") if self.by_piece else ("A", "B")
+        self.recbytes = {}                  # dataset -> bytes per stored record
+        self.headers = {b"\x0f": RECORD}    # header byte of data.bin -> bytes per record (more: Scale.prepare)
         self.trees_info = trees_info
         self.tree_sig = {}     # (patch id, binned?, records per tree, sum of weights per tree) -> binning tag
         self._tcache = {}
-        for ds in ("A", "B"):
+        for ds in self.datasets:
             recs, patch = drv.stored_records(ds, scale)
+            self.recbytes[ds] = len(recs[0])
             d = drv.dataset(ds, scale)
             for pid in sorted(set(patch)):
                 rows = [r for r in range(len(patch)) if patch[r] == pid]
                 for name, (edges, closed) in drv.BINNINGS.items():
+                    if drv.no_redshifts(ds) and edges is not None:
+                        continue             # no binned trees without redshifts
                     if edges is None:
                         sig = (pid, False, (len(rows),), (float(sum(d["w"][r] for r in rows)).hex(),))
                     else:
@@ -301,15 +319,16 @@ class Abstraction:
             if data == b"":
                 return "(DataF false [])"
             body = data[1:]
-            if data[:1] != b"\x0f":
+            size = self.headers.get(data[:1])
+            if size is None:
                 return "Junk"
             ids = []
-            for j in range(0, len(body) - len(body) % RECORD, RECORD):
-                r = self.rec.get(body[j:j + RECORD])
+            for j in range(0, len(body) - len(body) % size, size):
+                r = self.rec.get(body[j:j + size])
                 if r is None:
                     return "Junk"
                 ids.append(r)
-            if len(body) % RECORD:
+            if len(body) % size:
                 # a write system call that ended inside a record: complete records + a part of one more
                 return "(DataT %s)" % coq_recs(sorted(ids))
             return "(DataF true %s)" % coq_recs(sorted(ids))
@@ -550,13 +569,20 @@ class Scale:
         W.setup_rq = {"cmd": "setup", "root": self.p("fixed"), "scale": sc}
         W.must(W.setup_rq)
         os.makedirs(self.p("fresh"))
-        for ds in ("A", "B"):
+        for ds in self.ab.datasets:
             W.must({"cmd": "make_catalog", "dir": self.p("fresh", ds), "dataset": ds, "scale": sc})
+            # the header byte of a data.bin written by an uninterrupted run tells the record size of that file
+            for pdir in sorted(os.listdir(self.p("fresh", ds))):
+                if pdir.startswith("patch_") and os.path.isdir(self.p("fresh", ds, pdir)):
+                    with open(self.p("fresh", ds, pdir, "data.bin"), "rb") as fh:
+                        hdr = fh.read(1)
+                    assert self.ab.headers.get(hdr, self.ab.recbytes[ds]) == self.ab.recbytes[ds], (ds, hdr)
+                    self.ab.headers[hdr] = self.ab.recbytes[ds]
         # reference pickles, measurements on fresh caches (one fresh copy per request)
         reqs = [DEFAULT_REQ] if self.big else list(TAG)
-        for ds in ("A", "B"):
+        for ds in self.ab.datasets:
             ref = {"measure": {}}
-            for req in reqs:
+            for req in (["none"] if drv.no_redshifts(ds) else reqs):
                 d = self.p("tmp_ref")
                 shutil.rmtree(d, ignore_errors=True)
                 shutil.copytree(self.p("fresh", ds), d)
@@ -657,6 +683,9 @@ class Scale:
 
         add("create", "create", None, "A", nothing, dataset="A")
         add("overwrite", "overwrite", "A", "B", cat_with("A", "b1"), dataset="B")
+        if self.big:
+            # 24-byte records: the later measurement uses the recovered catalog as the unknown sample
+            add("create_w", "create", None, "Aw", nothing, requests=["none"], dataset="Aw")
         add("metadata", "metadata", "A", "A", cat_with("A", None, strip_meta=True))
         add("build_first", "build", "A", "A", cat_with("A", None), requests=["b1", "b2", "none"], binning="b1")
         add("rebuild_edges", "build", "A", "A", cat_with("A", "b1"), requests=["b1", "b2", "none"], binning="b2")
@@ -870,11 +899,12 @@ class Scale:
         piece ends (data of two pieces merged in a buffer, or written late) leaves the model's completing call
         without a counterpart and shows as a difference of the operation lists."""
         ends = self.data_ends(w)
+        size = self.ab.recbytes[w["new_ds"]]
         start, out = {}, []
         for pid, ids in self.ab.pieces[w["new_ds"]]:
-            lo = start.get(pid, 0) * RECORD
-            hi = lo + len(ids) * RECORD
-            out.append([((e - lo) // RECORD, (e - lo) % RECORD != 0) for e in ends.get(pid, []) if lo < e < hi])
+            lo = start.get(pid, 0) * size
+            hi = lo + len(ids) * size
+            out.append([((e - lo) // size, (e - lo) % size != 0) for e in ends.get(pid, []) if lo < e < hi])
             start[pid] = start.get(pid, 0) + len(ids)
         return out
 
@@ -1127,16 +1157,17 @@ def buffering_evidence(ctx, scales):
         if not S.big:
             continue
         for w in S.wl:
-            sizes = [len(ids) * RECORD for _, ids in S.ab.pieces[w["new_ds"]]]
+            rb = S.ab.recbytes[w["new_ds"]]
+            sizes = [len(ids) * rb for _, ids in S.ab.pieces[w["new_ds"]]]
             cuts = w.get("cuts") or [[] for _ in sizes]
             per_patch = {}
             for pid, ids in S.ab.pieces[w["new_ds"]]:
-                per_patch[pid] = per_patch.get(pid, 0) + len(ids) * RECORD
+                per_patch[pid] = per_patch.get(pid, 0) + len(ids) * rb
             out["%s/%s" % (S.tag, w["name"])] = dict(
-                chunksize=drv.chunksize(w["new_ds"], S.scale), pieces=len(sizes), bytes_per_patch=per_patch,
+                chunksize=drv.chunksize(w["new_ds"], S.scale), record_bytes=rb, pieces=len(sizes), bytes_per_patch=per_patch,
                 piece_bytes_min_max=[min(sizes), max(sizes)], pieces_below_io_block=sum(1 for x in sizes if x < IO_BLOCK),
                 pieces_above_two_io_blocks=sum(1 for x in sizes if x > 2 * IO_BLOCK),
-                last_piece_bytes={pid: [len(ids) * RECORD for q, ids in S.ab.pieces[w["new_ds"]] if q == pid][-1] for pid in per_patch},
+                last_piece_bytes={pid: [len(ids) * rb for q, ids in S.ab.pieces[w["new_ds"]] if q == pid][-1] for pid in per_patch},
                 pieces_in_several_system_calls=sum(1 for c in cuts if c), torn_cuts=sum(1 for c in cuts for _, t in c if t),
                 operations=len(w["ops"]))
             ctx.bump("x:%s:pieces-in-several-system-calls=%s" % (w["name"], "yes" if any(cuts) else "no"))
@@ -1144,7 +1175,7 @@ def buffering_evidence(ctx, scales):
         ctx.extra["buffering"] = out
 
 
-def sigkill_crosscheck(ctx, S, n_runs):
+def sigkill_crosscheck(ctx, S, n_runs, key="sigkill_crosscheck"):
     """thorough: produce crash points for real (strace SIGKILL injection) and compare with the replayed prefix"""
     rng = ctx.rng
     cands = []
@@ -1199,11 +1230,11 @@ def sigkill_crosscheck(ctx, S, n_runs):
     n_eq = sum(1 for r in results if r["status"] == "equal")
     n_miss = sum(1 for r in results if r["status"].startswith("miss"))
     bad = [r for r in results if r["status"].startswith("DIFFERENT")]
-    ctx.log("SIGKILL cross-check: %d runs, %d equal to the replayed prefix, %d missed the target, %d different (%.1fs)"
-            % (len(results), n_eq, n_miss, len(bad), time.time() - t0))
-    ctx.extra["sigkill_crosscheck"] = {"runs": len(results), "equal": n_eq, "missed_target": n_miss, "different": bad[:5],
+    ctx.log("SIGKILL cross-check (scale %s): %d runs, %d equal to the replayed prefix, %d missed the target, %d different (%.1fs)"
+            % (S.tag, len(results), n_eq, n_miss, len(bad), time.time() - t0))
+    ctx.extra[key] = {"runs": len(results), "equal": n_eq, "missed_target": n_miss, "different": bad[:5],
                                        "missed": [r for r in results if r["status"].startswith("miss")][:8]}
-    ctx.obligation("sigkill-crosscheck: real SIGKILL states equal replayed prefixes (%d/%d hit their target)" % (n_eq, len(results)),
+    ctx.obligation("sigkill-crosscheck (scale %s): real SIGKILL states equal replayed prefixes (%d/%d hit their target)" % (S.tag, n_eq, len(results)),
                    not bad and n_eq >= max(1, len(results) // 2), json.dumps(results)[:3000])
 
 
@@ -1237,5 +1268,8 @@ def run(ctx):
                 break
         if not ctx.quick():
             sigkill_crosscheck(ctx, scales[0], 40)
+            for S in scales:
+                if S.big:     # the system calls one piece is cut into, killed for real
+                    sigkill_crosscheck(ctx, S, 12, key="sigkill_crosscheck_" + S.tag)
     finally:
         W.stop()
